@@ -11,13 +11,25 @@ func emitClassifyCode(repo string) (string, error) {
 		pkg:          "./internal/route",
 		recvType:     "Segment",
 		namespace:    "Flamego.Gen.ClassifyCode",
-		imports:      []string{"Flamego.Code.GoSem", "Flamego.Code.LibRoute"},
+		imports:      []string{"Flamego.Code.GoSem", "Flamego.Code.LibRoute", "Flamego.Code.LibHTTP"},
 		stringBytes:  true,
 		opaqueFields: true,
 		ptrOption:    true,
 		structs:      []string{"BindParameterValue", "BindParameter", "BindParameters", "SegmentElement"},
-		funcs:        []string{"isMatchStyleStatic", "checkMatchStylePlaceholder", "checkMatchStyleAll"},
-		lib:          map[string]string{"strconv.Atoi": "Lib.route_Atoi"},
-		skip:         map[string]string{"String": "renders through a bytes.Buffer inside a sync.Once (the renderer is C06's subject)"},
+		funcs:        []string{"isMatchStyleStatic", "checkMatchStylePlaceholder", "checkMatchStyleAll", "constructMatchStyleRegex"},
+		types:        map[string]string{"*regexp.Regexp": "Lib.Regexp", "*bytes.Buffer": "Lib.Buffer"},
+		lib: map[string]string{
+			"strconv.Atoi":                 "Lib.route_Atoi",
+			"regexp.QuoteMeta":             "Flamego.quoteMeta",
+			"regexp.Compile":               "Lib.regexp_Compile E",
+			"(*regexp.Regexp).NumSubexp":   "Lib.Regexp_NumSubexp E",
+			"bytes.NewBufferString":        "Lib.Buffer_new",
+			"(*bytes.Buffer).String":       "Lib.Buffer_String",
+			"github.com/pkg/errors.Errorf": "Lib.errors_Errorf@0",
+			"github.com/pkg/errors.Wrapf":  "Lib.errors_Wrapf@1",
+		},
+		libMut:  map[string]string{"(*bytes.Buffer).WriteString": "Lib.Buffer_WriteString"},
+		prelude: "variable (E : Flamego.Engine)\n",
+		skip:    map[string]string{"String": "renders through a bytes.Buffer inside a sync.Once (the renderer is C06's subject)"},
 	})
 }
